@@ -1,15 +1,17 @@
 """C18 - an IOSpec lives exactly as long as a reference to its value.
 
 (T) tie: random histories over two models x three spaces (new_pandas / new_module / assignment / deletion /
-    update_pandas / update_module / add_bases / remove_bases / close / spec.sheet= / spec.path= / del_spec)
+    update_pandas / update_module / add_bases / remove_bases / close / spec.sheet= / spec.path= / del_spec /
+    del model.Space, with spaces and (scalar and non-scalar) cells created again later)
     are run on the real modelx
     (drivers/iospec.py) and on the Gallina model (IOSpec/Model.v, [check_case]); compared after every
     operation: outcome, the IO manager's specs, Model.iospecs, get_spec(value) for every value created so far,
     every (owner, name) -> value reference with its derived flag, and the _check_sanity() outcome.
 (P) property oracle on the implementation's own observations: no orphan spec, iospecs = manager specs,
     a spec disappears only when no reference (defined or derived) holds its value, no shared location,
-    sanity holds, a rejected creation changes nothing, and (pandas/openpyxl I/O, implementation only, never
-    part of the proof) write_model -> read_model gives back equal values for every live spec.
+    sanity holds, a rejected creation changes nothing, a deleted space leaves no reference behind, and
+    (pandas/openpyxl I/O, implementation only, never part of the proof) write_model -> read_model gives back
+    equal values for every live spec.
 
 Recorded defects of the pinned tree (generator avoids the trigger, witness in corpus/C18/finding_<key>.json,
 line in findings.d/C18.txt).  Trigger predicates are evaluated on the Python mirror (iospec_mirror.Mirror.trigger):
@@ -19,7 +21,13 @@ line in findings.d/C18.txt).  Trigger predicates are evaluated on the Python mir
   sheet_none     spec.sheet = None in an excel file shared with other specs
   sheet_to_none  spec.sheet = None on a spec created with a sheet name (read_args keeps sheet_name=None)
   read_override  (round trip only) two spaces define one name and share a sub space: read_model fails
-  scalar / delspace / emptysheet / abspath : operations that are not in the generated vocabulary at all
+  abspath        an absolute path: not in the generated vocabulary at all
+  (scalar, delspace and emptysheet are repaired in /repo and generated: creations onto the name of a scalar or
+   non-scalar cells (rejected), del model.Space (operation DelSpace, also reached as delref of a model-level name
+   that is a space), the sheet names '' (token 9: the default sheet, emitted as "no sheet name") and 'Sheet1'
+   (token 8) in new_pandas and spec.sheet=)
+Not defects, outside the vocabulary (filtered, counted): assign_scalar_cells (space.k = v on a scalar cells sets
+the cells' value), del_cells, sheet_on_module, remove_breaks_mro, closed_model_op.
 """
 import os, json, glob
 import fw
@@ -33,9 +41,12 @@ ASSUMPTIONS = [
     "derived references are recomputed from the inheritance graph in the model; the implementation keeps them incrementally "
     "(compared after every operation by the tie)",
     "names/paths/sheets/values are abstracted to numbers; value kinds (DataFrame/Series, module, other) are carried by the operation",
+    "the empty sheet name '' is identified with no sheet name (both mean the default sheet): the emitter writes None for "
+    "it in operations and in the observed spec.sheet; scalar and non-scalar cells are the same NewCells in the model "
+    "(assignment to a scalar cells, which sets its value, is not generated)",
+    "only top-level spaces are deleted (del model.S); child spaces are not in the vocabulary",
     "file I/O of pandas/openpyxl/importlib (write_model/read_model round trip) is checked on the implementation only",
-    "generated histories avoid the recorded defects' triggers (dup, update_bound, scalar, delspace, "
-    "emptysheet, abspath, read_override, sheet_none, sheet_to_none) and never touch a closed model",
+    "generated histories avoid the recorded defects' triggers (abspath, read_override) and never touch a closed model",
 ]
 SP_NAMES = [10, 11, 12]
 GL_NAMES = [30, 31]
@@ -59,8 +70,12 @@ def gen_case(rng, tier, filtered):
             ops.append({"op": "newspace", "m": m, "s": s})
         for s in range(nspaces[m]):
             ops.append({"op": "newcells", "m": m, "s": s, "n": 20})
+        for s in range(nspaces[m]):
+            if rng.random() < 0.3:
+                ops.append({"op": "newscalarcells", "m": m, "s": s, "n": 21})
     for o in ops:
         assert mir.step(o)
+    n_setup = len(ops)
     fresh_pd = [9]
     fresh_mod = [50]
     used = set()
@@ -68,9 +83,15 @@ def gen_case(rng, tier, filtered):
     def open_model():
         return rng.choice([m for m in range(nmodels) if m not in mir.closed])
 
+    def pick_space(m):
+        here = mir.spaces_of(m)
+        if here and rng.random() < 0.9:
+            return rng.choice(here)
+        return rng.randrange(nspaces[m])       # possibly a deleted one: the operation must be refused
+
     def pick_owner():
         m = open_model()
-        s = None if rng.random() < 0.2 else rng.randrange(nspaces[m])
+        s = None if rng.random() < 0.2 else pick_space(m)
         return m, s
 
     def pick_name(s):
@@ -81,6 +102,8 @@ def gen_case(rng, tier, filtered):
             return 20
         if r < 0.09:
             return rng.choice([1000, 1001])
+        if r < 0.14:
+            return 21
         return rng.choice(SP_NAMES[:2] if r < 0.7 else SP_NAMES)
 
     def live_values(m):
@@ -88,6 +111,21 @@ def gen_case(rng, tier, filtered):
 
     def propose():
         r = rng.random()
+        if r < 0.06:
+            # the spaces themselves: del model.S (with everything in it), a space or a cells created again
+            m = open_model()
+            q = rng.random()
+            if q < 0.5:
+                owners = sorted({x["own"][1] for x in mir.refs if x["own"][0] == m and x["own"][1] is not None})
+                if owners and rng.random() < 0.6:
+                    return {"op": "delspace", "m": m, "s": rng.choice(owners)}
+                return {"op": "delspace", "m": m, "s": rng.randrange(nspaces[m])}
+            if q < 0.75:
+                gone = [x for x in range(nspaces[m]) if (m, x) not in mir.spaces]
+                return {"op": "newspace", "m": m, "s": rng.choice(gone) if gone and rng.random() < 0.9 else rng.randrange(nspaces[m])}
+            return {"op": rng.choice(["newcells", "newscalarcells", "newscalarcells"]), "m": m, "s": pick_space(m),
+                    "n": rng.choice([20, 21, 21, 21, 12])}
+        r = (r - 0.06) / 0.94
         if r < 0.09:
             m = open_model()
             sv = sorted({sp["val"] for io in mir.ios if io["grp"] == m for sp in io["specs"]})
@@ -104,7 +142,7 @@ def gen_case(rng, tier, filtered):
                 taken = [c["sheet"] for c in mir.io_of(sp["id"])["specs"] if c["id"] != sp["id"]] if sp else []
                 if taken and rng.random() < 0.5:
                     return {"op": "setsheet", "m": m, "v": v, "sh": rng.choice(taken)}     # clash: must be refused
-                return {"op": "setsheet", "m": m, "v": v, "sh": rng.choice([1, 2, 3, 1, 2, 3, None])}
+                return {"op": "setsheet", "m": m, "v": v, "sh": rng.choice([1, 2, 3, 1, 2, 3, None, None, 8, 9])}
             if q < 0.8:
                 return {"op": "setpath", "m": m, "v": v, "p": rng.randrange(6)}
             if v >= 50:
@@ -122,7 +160,7 @@ def gen_case(rng, tier, filtered):
                 ft = "bad"
             sh = None
             if ft == "excel" or PANDAS_PATH.get(p) == "excel":
-                sh = rng.choice([1, 2, 3, 1, 2, None])
+                sh = rng.choice([1, 2, 3, 1, 2, None] if rng.random() < 0.8 else [8, 9, 9])
             cand = [t for t in range(1, 7) if not mir.get_spec(m, t)] or list(range(1, 7))
             v = rng.choice(cand) if rng.random() < 0.93 else rng.choice([7, 8])
             return {"op": "newpandas", "m": m, "s": s, "n": pick_name(s), "p": p, "ft": ft, "sh": sh,
@@ -151,7 +189,7 @@ def gen_case(rng, tier, filtered):
                 return {"op": "delref", "m": m, "s": x["own"][1], "n": x["name"]}
             m, s = pick_owner()
             n = pick_name(s)
-            return {"op": "delref", "m": m, "s": s, "n": n if n != 20 else 10}
+            return {"op": "delref", "m": m, "s": s, "n": n if n not in (20, 21) else 10}
         if r < 0.83:
             m = open_model()
             lv = live_values(m)
@@ -173,7 +211,7 @@ def gen_case(rng, tier, filtered):
             return {"op": "update", "m": m, "old": old, "new": new, "vk": vk_of(new), "module": False}
         if r < 0.92:
             m = open_model()
-            s, b = rng.randrange(nspaces[m]), rng.randrange(nspaces[m])
+            s, b = pick_space(m), pick_space(m)
             return {"op": "addbase", "m": m, "s": s, "b": b}
         if r < 0.985:
             m = open_model()
@@ -188,7 +226,7 @@ def gen_case(rng, tier, filtered):
     n_ops = rng.randint(10, 22) if tier == "quick" else rng.randint(10, 32)
     tries = 0
     accepted = 0
-    while len(ops) < n_ops + 2 * sum(nspaces[m] for m in range(nmodels)) and tries < 400:
+    while len(ops) < n_ops + n_setup and tries < 400:
         tries += 1
         if len(mir.closed) == nmodels:
             break
@@ -248,6 +286,11 @@ def optn(x):
     return "None" if x is None else "(Some %s)" % num(x)
 
 
+def sheet(x):
+    """the empty sheet name (token 9, '') is the default sheet: no sheet name"""
+    return optn(None if x in (9, "") else x)
+
+
 def owner(o):
     return "(%s, %s)" % (num(o["m"]), optn(o["s"]))
 
@@ -256,10 +299,12 @@ def op_term(o):
     k = o["op"]
     if k == "newspace":
         return "NewSpace %s %s" % (num(o["m"]), num(o["s"]))
-    if k == "newcells":
+    if k in ("newcells", "newscalarcells"):        # a creation is refused on the name of either kind of cells
         return "NewCells %s %s %s" % (num(o["m"]), num(o["s"]), num(o["n"]))
+    if k == "delspace":
+        return "DelSpace %s %s" % (num(o["m"]), num(o["s"]))
     if k == "newpandas":
-        return "NewPandas %s %s %s %s %s %s %s" % (owner(o), num(o["n"]), num(o["p"]), FT[o["ft"]], optn(o["sh"]),
+        return "NewPandas %s %s %s %s %s %s %s" % (owner(o), num(o["n"]), num(o["p"]), FT[o["ft"]], sheet(o["sh"]),
                                                   num(o["v"]), VK[o["vk"]])
     if k == "newmodule":
         return "NewModule %s %s %s %s %s" % (owner(o), num(o["n"]), num(o["p"]), num(o["v"]),
@@ -277,7 +322,7 @@ def op_term(o):
     if k == "close":
         return "Close %s" % num(o["m"])
     if k == "setsheet":
-        return "SetSheet %s %s %s" % (num(o["m"]), num(o["v"]), optn(o["sh"]))
+        return "SetSheet %s %s %s" % (num(o["m"]), num(o["v"]), sheet(o["sh"]))
     if k == "setpath":
         return "SetPath %s %s %s" % (num(o["m"]), num(o["v"]), num(o["p"]))
     if k == "delspec":
@@ -286,7 +331,7 @@ def op_term(o):
 
 
 def sv_term(v):
-    return "(%s, %s, %s, %s, %s)" % (num(v[0]), num(v[1]), KIND.get(v[2], "KBad"), optn(v[3]), num(v[4]))
+    return "(%s, %s, %s, %s, %s)" % (num(v[0]), num(v[1]), KIND.get(v[2], "KBad"), sheet(v[3]), num(v[4]))
 
 
 def obs_term(ob):
@@ -367,6 +412,10 @@ def oracle(case, res):
             for part in ("mgr", "api", "refs"):
                 if ob[part] != prev[part]:
                     bad.append((k, "rejected %s changed %s: %r -> %r" % (o["op"], part, prev[part], ob[part])))
+        if o["op"] == "delspace" and ob["out"] == "ok":
+            left = [r for r in refs if r[0] == o["m"] and r[1] == o["s"]]
+            if left:
+                bad.append((k, "the deleted space left references behind: %r" % (left,)))
         if o["op"] in ("newpandas", "newmodule"):
             if ob["out"] == "err":
                 for part in ("mgr", "api", "refs"):
@@ -541,15 +590,37 @@ def run(tier, seed, rng):
     out.evaluations = len(cases)
     out.traces_validated = len(cases) - len(bad)
     seen = set()
-    stats = {"multi_ref": 0, "spec_died": 0, "rejected_creation": 0}
+    stats = {"multi_ref": 0, "spec_died": 0, "rejected_creation": 0, "space_deleted": 0, "spec_died_with_space": 0,
+             "creation_onto_cells": 0, "creation_onto_scalar_cells": 0, "empty_sheet_ops": 0, "empty_sheet_refused": 0}
     for c, r in zip(cases, res):
         nt, (mu, go, rj) = nontrivial(c, r)
         stats["multi_ref"] += mu; stats["spec_died"] += go; stats["rejected_creation"] += rj
+        pm, sc, live = [], set(), set()
+        for o, ob in zip(c["ops"], r["obs"]):
+            ok = ob["out"] == "ok"
+            if o["op"] == "newspace" and ok:
+                live.add((o["m"], o["s"]))
+            if o["op"] == "newscalarcells" and ok:
+                sc.add((o["m"], o["s"]))
+            gone = (o["m"], o["s"]) if o["op"] == "delspace" else \
+                (o["m"], o["n"]) if o["op"] == "delref" and o["s"] is None else None
+            if gone in live and ok:
+                live.discard(gone)
+                sc.discard(gone)
+                stats["space_deleted"] += 1
+                stats["spec_died_with_space"] += len(ob["mgr"]) < len(pm)
+            if o["op"] in ("newpandas", "newmodule") and o["n"] in (20, 21) and ob["out"] == "err":
+                stats["creation_onto_cells"] += 1
+                stats["creation_onto_scalar_cells"] += o["n"] == 21 and (o["m"], o["s"]) in sc
+            if o.get("sh") == 9:
+                stats["empty_sheet_ops"] += 1
+                stats["empty_sheet_refused"] += ob["out"] == "err"
+            pm = ob["mgr"]
         if nt:
             seen.add(json.dumps(c["ops"], sort_keys=True))
     out.distinct_nontrivial = len(seen)
-    out.rule = ("random histories (setup: 1-2 models, 1-3 spaces, one non-scalar cells per space; then 10-22 operations, "
-                "thorough 10-32) drawn with a Python mirror of the model so that most operations are accepted; "
+    out.rule = ("random histories (setup: 1-2 models, 1-3 spaces, one non-scalar cells per space, a scalar cells in some; "
+                "then 10-22 operations, thorough 10-32, among them deleting and re-creating spaces and cells) drawn with a Python mirror of the model so that most operations are accepted; "
                 "non-trivial = at some point a spec'd value is held by >= 2 references or a spec dies with its last "
                 "reference; distinct by the operation list")
     kinds = {}
@@ -565,6 +636,9 @@ def run(tier, seed, rng):
                         "roundtrips": sum(len(r.get("rt") or []) for r in res)}
     out.samples = [c["ops"] for c in cases[len(corpus):len(corpus) + 2]]
     out.notes += [
+        "delspace, scalar and emptysheet are repaired in /repo and generated (distribution.focus: space_deleted, "
+        "spec_died_with_space, creation_onto_cells, creation_onto_scalar_cells, empty_sheet_ops, empty_sheet_refused); "
+        "stored regression histories: corpus/C18/{delspace_tree,creation_onto_cells,empty_sheet,cells_in_base_of_cells}.json",
         "generator avoids the triggers of the recorded defects (counts in distribution.filtered_by_trigger); "
         "model-level and space-level name pools are disjoint; only relative paths; operations on a closed model "
         "are not generated (the code keeps a closed model fully operational)",
